@@ -540,6 +540,22 @@ fn box_regex_sizes(obs: &mut Obs, thorough: bool) -> Res {
     Ok(())
 }
 
+/// the targeted near misses of C07 (forbidden integer forms, blanks, string forms, ill-formed and ill-typed
+/// filters incl. operator words of other JSONPath dialects, malformed queries) through every entry point:
+/// whatever the verdict on them is, it must be `Ok` or `Err`, and the same from every entry point
+fn box_targeted_invalid(obs: &mut Obs, _thorough: bool) -> Res {
+    let inputs = crate::props::c07::targeted_inputs();
+    let docs = [json!({"a": [1, 2, {"b": "x"}], "b": [1]}), json!([]), json!(1)];
+    for (s, family) in &inputs {
+        obs.nontrivial(&(s.as_str(), 0usize), || json!({"query": s, "family": family}));
+        for d in &docs {
+            all_entry_points(s, d, obs)?;
+        }
+    }
+    obs.boxes.push(json!({"box": "the targeted box of C07 through all entry points on three documents", "strings": inputs.len(), "exhaustive": true}));
+    Ok(())
+}
+
 fn direct(case: &Value, obs: &mut Obs) -> Res {
     let q = case["query"].as_str().unwrap_or("");
     all_entry_points(q, &case["doc"], obs).map(|_| ())
@@ -559,6 +575,7 @@ pub fn prop() -> Prop {
         ],
         subs: vec![
             Sub { name: "probes", kind: Kind::Exhaustive(probes) },
+            Sub { name: "box-targeted-invalid", kind: Kind::Exhaustive(box_targeted_invalid) },
             Sub { name: "box-regex-sizes", kind: Kind::Exhaustive(box_regex_sizes) },
             Sub { name: "random-valid", kind: Kind::Random { f: random_valid, quick: 30_000, thorough: 1_600_000, len: 600 } },
             Sub { name: "random-near-miss", kind: Kind::Random { f: random_near_miss, quick: 160_000, thorough: 3_200_000, len: 600 } },
